@@ -1,0 +1,19 @@
+//go:build verif
+
+package cache
+
+import "sync/atomic"
+
+// Verification hook, only compiled with the verif build tag.
+
+// VerifLookupFn, when set, is called by Transaction.With right after it has
+// found an existing cache under the name and released the manager lock, before
+// it tries to lock that cache. A harness blocks inside it to let other
+// transactions run in that gap.
+var VerifLookupFn atomic.Pointer[func(name string, readOnly bool)]
+
+func verifAfterLookup(name string, readOnly bool) {
+	if fn := VerifLookupFn.Load(); fn != nil {
+		(*fn)(name, readOnly)
+	}
+}
